@@ -137,6 +137,24 @@ func c18Run(rc *RunCtx) *Violation {
 		}
 		m.ssid = r.Post.SSID
 		m.visited[m.state] = true
+		// ---- a data message that arrives outside a session (after a restart, after End, after the
+		// peer's disconnect) is reported to the user AND answered with an OTR error message - that
+		// reply is what lets the peer (error-start policy) bring the session back. Messages the
+		// sender marked "ignore if unreadable" (heartbeats, SMP, disconnect) are exempt.
+		if r.Kind == "recv" && otrOn && p.Cfg.ErrHandler && prevState != "encrypted" && !r.Post.Enc && r.HasEvent("msg", "ReceivedMessageNotInPrivate") {
+			flagged := true
+			if d, _, ok := parseDataLenient(r.In); ok {
+				flagged = d.Flags&refotr.FlagIgnoreUnreadable != 0
+			}
+			hasErr := false
+			for _, out := range r.Out {
+				hasErr = hasErr || bytes.HasPrefix(out, []byte("?OTR Error"))
+			}
+			if !flagged && !hasErr {
+				fail("notprivate.unanswered", fmt.Sprintf("%s (error message handler set) received a data message in state %s, told the user, but sent no OTR error message to the peer", p.Name, prevState), map[string]string{"state": prevState})
+				return
+			}
+		}
 		// ---- Send: outcome class
 		if r.Kind == "send" && otrOn {
 			t := &c18Text{text: cp(r.In), order: len(m.texts)}
